@@ -125,6 +125,9 @@ def run_kani(feature, ob, tag="run", extra=()):
     log = os.path.join(BUILD, "logs", f"{harness.replace('::', '.')}.{tag}.log")
     mem_kb = int(ob.get("mem_gb", 10) * 1024 * 1024)
     timeout = int(ob.get("timeout", 600))
+    cap = int(os.environ.get("VERIF_TIMEOUT_CAP", "0") or 0)
+    if cap:
+        timeout = min(timeout, cap)
     flags = ob.get("flags", ["--no-memory-safety-checks"])
     cmd = kani_cmd(feature, harness, flags, extra)
     script = (f"ulimit -v {mem_kb}; cd {shlex.quote(HCRATE)} && exec timeout -k 10 {timeout} "
